@@ -36,25 +36,63 @@ def names(tier):
     return res
 
 
+INT = {"type": "integer"}
+USES = ("member", "variant", "def", "member_reqonly", "member_flat", "ext_variant", "int_variant")
+PAIR_USES = {"member": ("member", "member_mixed", "member_reqonly"), "variant": ("variant",), "def": ("def",), "member_flat": ("member_flat",),
+             "ext_variant": ("ext_variant",), "int_variant": ("int_variant",), "member_reqonly": ()}
+
+
 def doc_for(use, ns):
+    """-> (document, wire names the struct / enum T must expose)"""
+    ns = list(ns)
     if use == "member":
-        return {"definitions": {"T": {"type": "object", "properties": {n: {"type": "integer"} for n in ns}, "required": list(ns)}}}
+        return {"definitions": {"T": {"type": "object", "properties": {n: INT for n in ns}, "required": ns}}}, ns
+    if use == "member_reqonly":
+        # names that occur only in `required` (no schema under `properties`) still become members
+        return {"definitions": {"T": {"type": "object", "properties": {"zz9": INT}, "required": ns}}}, ns + ["zz9"]
+    if use == "member_mixed":
+        # first name declared, the others only required
+        return {"definitions": {"T": {"type": "object", "properties": {ns[0]: INT}, "required": ns}}}, ns
+    if use == "member_flat":
+        # next to a flattened additional-properties member (which typify names `extra`, `extra_`, ...)
+        return {"definitions": {"T": {"type": "object", "properties": {n: INT for n in ns[:1]}, "required": ns, "additionalProperties": {"type": "string"}}}}, ns
     if use == "variant":
-        return {"definitions": {"T": {"type": "string", "enum": list(ns)}}}
+        return {"definitions": {"T": {"type": "string", "enum": ns}}}, ns
+    if use == "ext_variant":
+        subs = [{"type": "object", "properties": {n: INT}, "required": [n], "additionalProperties": False} for n in ns]
+        subs.append({"type": "object", "properties": {"zz9": {"type": "boolean"}}, "required": ["zz9"], "additionalProperties": False})
+        return {"definitions": {"T": {"oneOf": subs}}}, ns + ["zz9"]
+    if use == "int_variant":
+        subs = [{"type": "object", "properties": {"tag9": {"type": "string", "enum": [n]}, "v%d" % i: INT}, "required": ["tag9"]} for i, n in enumerate(ns)]
+        subs.append({"type": "object", "properties": {"tag9": {"type": "string", "enum": ["zz9"]}}, "required": ["tag9"]})
+        return {"definitions": {"T": {"oneOf": subs}}}, ns + ["zz9"]
     if use == "def":
-        return {"definitions": {n: {"type": "object", "properties": {"x": {"type": "integer"}}} for n in ns}}
+        return {"definitions": {n: {"type": "object", "properties": {"x": INT}} for n in ns}}, ns
     raise ValueError(use)
 
 
 def mk(use, ns):
-    c = {"use": use, "names": list(ns), "doc": doc_for(use, ns)}
+    doc, wires = doc_for(use, ns)
+    c = {"use": use, "names": list(ns), "doc": doc, "wires": wires}
     c["key"] = key_of(["C08", use, list(ns)])
     return c
 
 
 def cases(tier, seed):
     # singles only; pairs are discovered from the implementation's own answers inside execute()
-    return [mk(use, [s]) for s in names(tier) for use in ("member", "variant", "def")]
+    out = [mk(use, [s]) for s in names(tier) for use in ("member", "variant", "def")]
+    # the other places a JSON name becomes an identifier: shorter strings (the sanitiser is shared, the surrounding code is not)
+    short = [s for s in names(tier) if len(s) <= (2 if tier == "quick" else 3) or s in KEYWORDS or s in SPECIAL] + ["extra", "extra_", "Extra", "tag9", "zz9"]
+    seen = set()
+    for s in short:
+        if s in seen or s == "zz9":
+            continue
+        seen.add(s)
+        for use in ("member_reqonly", "member_flat", "ext_variant", "int_variant"):
+            if use == "int_variant" and s == "":
+                pass
+            out.append(mk(use, [s]))
+    return out
 
 
 def _root_items(a):
@@ -82,20 +120,22 @@ def observe(c, a):
     items = _root_items(a)
     probs = []
     idents = {}
-    if c["use"] == "member":
+    if c["use"].startswith("member"):
         st = [it for it in items if it.get("kind") == "struct" and it["name"] == "T"]
         if not st:
             return "ok", {}, ["struct T not found"]
         fields = st[0]["body"]["fields"]
         fn = [f["name"] for f in fields]
+        # the flattened additional-properties member has no wire name of its own (its identifier must still be distinct)
+        fields = [f for f in fields if not any(x["key"] == "flatten" for x in f["attrs"].get("serde", []))]
         if len(set(fn)) != len(fn):
             probs.append("duplicate field identifiers %s" % fn)
         wires = [wire_name(f["name"], f["attrs"]) for f in fields]
-        if sorted(wires) != sorted(c["names"]):
-            probs.append("wire names %r != JSON names %r" % (sorted(wires), sorted(c["names"])))
+        if sorted(wires) != sorted(c["wires"]):
+            probs.append("wire names %r != JSON names %r" % (sorted(wires), sorted(c["wires"])))
         for f, w in zip(fields, wires):
             idents[w] = f["name"]
-    elif c["use"] == "variant":
+    elif c["use"].endswith("variant"):
         en = [it for it in items if it.get("kind") == "enum" and it["name"] == "T"]
         if not en:
             return "ok", {}, ["enum T not found"]
@@ -104,8 +144,8 @@ def observe(c, a):
         if len(set(vn)) != len(vn):
             probs.append("duplicate variant identifiers %s" % vn)
         wires = [wire_name(v["name"], v["attrs"]) for v in vs]
-        if sorted(wires) != sorted(c["names"]):
-            probs.append("wire names %r != JSON values %r" % (sorted(wires), sorted(c["names"])))
+        if sorted(wires) != sorted(c["wires"]):
+            probs.append("wire names %r != JSON values %r" % (sorted(wires), sorted(c["wires"])))
         for v, w in zip(vs, wires):
             idents[w] = v["name"]
     else:
@@ -149,7 +189,7 @@ def execute(cases_, tier, seed):
                 "non-trivial = name whose identifier differs from the name itself (sanitisation did something) or a colliding pair")
     ans = run_cases(cases_)
     hist = {}
-    classes = {"member": {}, "variant": {}, "def": {}}
+    classes = {u: {} for u in USES}
     single_ok = {}
     for c in cases_:
         status, idents = judge(c, ans[c["key"]], res, hist)
@@ -167,15 +207,23 @@ def execute(cases_, tier, seed):
     pair_cases = []
     if not is_replay:
         cap = 1500 if tier == "quick" else 12000
-        for use in ("member", "variant", "def"):
+        for use in USES:
             allp = []
             for ident, ns in classes[use].items():
                 ns = sorted(ns, key=lambda s: (len(s), s))
                 for s, t in itertools.combinations(ns, 2):
                     allp.append((len(s) + len(t), s, t))
             allp.sort()
-            for _, s, t in allp[:cap // 3]:
-                pair_cases.append(mk(use, [s, t]))
+            puses = PAIR_USES[use]
+            for _, s, t in allp[:(cap // 3 if use in ("member", "variant", "def") else cap // 10)]:
+                for pu in puses:
+                    pair_cases.append(mk(pu, [s, t]))
+                    if pu == "member_mixed":
+                        pair_cases.append(mk(pu, [t, s]))
+        # names whose identifier meets the one typify gives the flattened member
+        for n in sorted(set(classes["member"].get("extra", []) + classes["member"].get("extra_", []))):
+            pair_cases.append(mk("member_flat", [n]))
+            pair_cases.append(mk("member_flat", ["zz8", n]))
         pa = run_cases(pair_cases)
         for c in pair_cases:
             judge(c, pa[c["key"]], res, hist)
